@@ -1558,5 +1558,238 @@ theorem Acc.resp_final {H : List Item} {st : St} {r : Nat} {i : Bool} (na : NA) 
     exact ⟨this.1, by omega, this.2.2⟩
 
 
+variable {rid n1 n2 : Nat} {z : Prop} {H : List Item}
+
+theorem Acc.frame {st st' : St} (h : Acc rid n1 n2 z H st) (ha : st'.1.active = st.1.active)
+    (hp : st'.1.pending = st.1.pending) (hs : st'.1.sessions = st.1.sessions) (ho : st'.2 = st.2) :
+    Acc rid n1 n2 z H st' := by
+  have hi : items st'.1 = items st.1 := by unfold items; rw [ha, hp]
+  exact h.move (by unfold PKN; rw [hp]; exact h.pkn) (by unfold SessBig; rw [hs]; exact h.sb)
+    (by rw [hi]) ho
+
+theorem A_frame {α} {m : M α}
+    (h : ∀ st, (m.run st).2.1.active = st.1.active ∧ (m.run st).2.1.pending = st.1.pending ∧
+      (m.run st).2.1.sessions = st.1.sessions ∧ (m.run st).2.2 = st.2) :
+    Ho (Acc rid n1 n2 z H) m (fun _ => Acc rid n1 n2 z H) :=
+  ⟨fun st hp => hp.frame (h st).1 (h st).2.1 (h st).2.2.1 (h st).2.2.2⟩
+
+theorem A_emit (o : Out) (ho : ∀ r, aboutRid r o = false) :
+    Ho (Acc rid n1 n2 z H) (emit o) (fun _ => Acc rid n1 n2 z H) := ⟨fun _ hp => hp.neutral o ho⟩
+theorem A_send (na p) : Ho (Acc rid n1 n2 z H) (send na p) (fun _ => Acc rid n1 n2 z H) :=
+  A_emit _ (fun _ => rfl)
+theorem A_freshNonce (c : Cfg) : Ho (Acc rid n1 n2 z H) (freshNonce c) (fun _ => Acc rid n1 n2 z H) :=
+  A_frame (fun _ => ⟨rfl, rfl, rfl, rfl⟩)
+theorem A_freshCd (c : Cfg) : Ho (Acc rid n1 n2 z H) (freshCd c) (fun _ => Acc rid n1 n2 z H) :=
+  A_frame (fun _ => ⟨rfl, rfl, rfl, rfl⟩)
+theorem A_freshEph (c : Cfg) : Ho (Acc rid n1 n2 z H) (freshEph c) (fun _ => Acc rid n1 n2 z H) :=
+  A_frame (fun _ => ⟨rfl, rfl, rfl, rfl⟩)
+theorem A_removeExpected (a) : Ho (Acc rid n1 n2 z H) (removeExpected a) (fun _ => Acc rid n1 n2 z H) :=
+  A_frame (fun _ => ⟨rfl, rfl, rfl, rfl⟩)
+theorem A_addExpected (a) : Ho (Acc rid n1 n2 z H) (addExpected a) (fun _ => Acc rid n1 n2 z H) := by
+  unfold addExpected
+  refine Ho.modS _ (fun st hp => ?_)
+  show Acc rid n1 n2 z H (if _ then _ else _, st.2)
+  split <;> exact hp.frame rfl rfl rfl rfl
+
+theorem mkName_big {c : Cfg} (hl : 1 ≤ c.localId) (k : Nat) : 1000000 ≤ mkName c k := by
+  unfold mkName
+  have hl' : (1 : Nat) ≤ (c.localId : Nat) := hl
+  omega
+
+theorem A_freshRid_bind {β} {c : Cfg} (hl : 1 ≤ c.localId) {k : Nat → M β} {Q : β → St → Prop}
+    (h : ∀ r, 1000000 ≤ r → Ho (Acc rid n1 n2 z H) (k r) Q) :
+    Ho (Acc rid n1 n2 z H) (freshRid c >>= k) Q :=
+  ⟨fun st hp => (h _ (mkName_big hl _)).out _ ((A_frame (m := freshRid c) (fun _ => ⟨rfl, rfl, rfl, rfl⟩)).out st hp)⟩
+
+theorem A_encryptMessage_bind {β} {c : Cfg} {sess : Session} {pt : Msg} {k : Session × Pkt → M β}
+    {Q : β → St → Prop}
+    (h : ∀ r, (SBig sess → SBig r.1) → Ho (Acc rid n1 n2 z H) (k r) Q) :
+    Ho (Acc rid n1 n2 z H) (encryptMessage c sess pt >>= k) Q :=
+  ⟨fun st hp => (h _ (fun hs => hs)).out _
+    ((A_frame (m := encryptMessage c sess pt) (fun _ => ⟨rfl, rfl, rfl, rfl⟩)).out st hp)⟩
+
+/-! sessions -/
+theorem A_sessGetMut (c : Cfg) (na) : Ho (Acc rid n1 n2 z H) (sessGetMut c na)
+    (fun r st => Acc rid n1 n2 z H st ∧ ∀ sess, r = some sess → SBig sess) := by
+  refine sessGetMut_elim (fun st hp => ⟨fun _ => ⟨hp, fun _ h => nomatch h⟩, fun k sess stamp hf =>
+    ⟨fun _ => ⟨hp.sess _ (fun e he => hp.sb e (List.mem_filter.1 he).1), fun _ h => nomatch h⟩, fun _ => ?_⟩⟩)
+  have hm := List.mem_of_find?_eq_some hf
+  have hs : SBig sess := hp.sb _ hm
+  refine ⟨hp.sess _ (fun e he => ?_), fun s' h => by cases h; exact hs⟩
+  simp only [List.mem_append, List.mem_singleton] at he
+  rcases he with he | he
+  · exact hp.sb e (List.mem_filter.1 he).1
+  · subst he; exact hs
+
+theorem A_sessGetMut_bind {β} {c : Cfg} {na : NA} {k : Option Session → M β} {Q : β → St → Prop}
+    (h : ∀ r, (∀ sess, r = some sess → SBig sess) → Ho (Acc rid n1 n2 z H) (k r) Q) :
+    Ho (Acc rid n1 n2 z H) (sessGetMut c na >>= k) Q :=
+  Ho.bind (A_sessGetMut c na) (fun r => Ho.pre_pure' (h r))
+
+theorem A_sessPut (na sess) (hs : SBig sess) :
+    Ho (Acc rid n1 n2 z H) (sessPut na sess) (fun _ => Acc rid n1 n2 z H) :=
+  Ho.modS _ (fun st hp => hp.sess _ (fun e he => by
+    simp only [List.mem_map] at he
+    obtain ⟨y, hy, rfl⟩ := he
+    by_cases hk : (y.1 == na) = true
+    · simp only [hk, if_true]; exact hs
+    · simp only [hk]; exact hp.sb y hy))
+
+theorem A_sessRemove (na) : Ho (Acc rid n1 n2 z H) (sessRemove na) (fun _ => Acc rid n1 n2 z H) :=
+  Ho.modS _ (fun st hp => hp.sess _ (fun e he => hp.sb e (List.mem_filter.1 he).1))
+
+theorem A_sessInsert (c : Cfg) (na sess) (hs : SBig sess) :
+    Ho (Acc rid n1 n2 z H) (sessInsert c na sess) (fun _ => Acc rid n1 n2 z H) :=
+  Ho.modS _ (fun st hp => hp.sess _ (fun e he => by
+    have key : ∀ e ∈ st.1.sessions.filter (·.1 != na) ++ [(na, sess, st.1.rt)], SBig e.2.1 := by
+      intro e he
+      simp only [List.mem_append, List.mem_singleton] at he
+      rcases he with he | he
+      · exact hp.sb e (List.mem_filter.1 he).1
+      · subst he; exact hs
+    split at he
+    · exact key e (List.mem_of_mem_drop he)
+    · exact key e he))
+
+theorem A_removeExpiredSessions (c : Cfg) :
+    Ho (Acc rid n1 n2 z H) (removeExpiredSessions c) (fun _ => Acc rid n1 n2 z H) :=
+  removeExpiredSessions_elim (fun st hp e r her => by
+    have hs : Acc rid n1 n2 z H ({ st.1 with sessions := r }, st.2) :=
+      hp.sess _ (fun x hx => hp.sb x (by
+        have := popExpired_suffix c.sessionTtl st.1.rt st.1.sessions x; rw [her] at this; exact this hx))
+    by_cases he : e.isEmpty
+    · simp only [he, if_true]; exact hs
+    · simp only [he]; exact hs.neutral _ (fun _ => rfl))
+
+/-! active requests -/
+theorem A_activeInsert (c : Cfg) (call : Call) (x : Item) (hx : call.item = x) :
+    Ho (Acc rid n1 n2 z (x :: H)) (activeInsert c call) (fun _ => Acc rid n1 n2 z H) :=
+  Ho.modS _ (fun st hp => hp.move hp.pkn hp.sb (by
+    subst hx
+    show (items { st.1 with active := st.1.active ++ [_], tctr := _ } ++ H).Perm _
+    unfold items
+    simp only [List.map_append, List.map_cons, List.map_nil, List.append_assoc]
+    refine List.Perm.append_left _ ?_
+    exact (List.perm_middle (a := call.item) (l₁ := pitems st.1.pending) (l₂ := H)).symm) rfl)
+
+theorem perm_hand {x : Item} {I I' H : List Item} (h : (x :: I').Perm I) :
+    (I' ++ x :: H).Perm (I ++ H) :=
+  List.perm_middle.trans (List.Perm.append_right H h)
+
+theorem A_activeRemoveByNonce (n) : Ho (Acc rid n1 n2 z H) (activeRemoveByNonce n)
+    (fun r st => (r = none → Acc rid n1 n2 z H st) ∧
+      ∀ call, r = some call → Acc rid n1 n2 z (call.item :: H) st) :=
+  activeRemoveByNonce_elim (fun st hp => ⟨fun _ => ⟨fun _ => hp, fun _ h => nomatch h⟩,
+    fun call hf => ⟨fun h => (nomatch h), fun x hx => by
+      cases hx
+      exact hp.move hp.pkn hp.sb (perm_hand (items_erase (List.mem_of_find?_eq_some hf) _)) rfl⟩⟩)
+
+theorem A_activeRemoveRequest (na rid') : Ho (Acc rid n1 n2 z H) (activeRemoveRequest na rid')
+    (fun r st => (r = none → Acc rid n1 n2 z H st) ∧
+      ∀ call, r = some call → Acc rid n1 n2 z (call.item :: H) st ∧ call.rid = rid') :=
+  activeRemoveRequest_elim (fun st hp => ⟨fun _ => ⟨fun _ => hp, fun _ h => nomatch h⟩,
+    fun call hf => ⟨fun h => (nomatch h), fun x hx => by
+      cases hx
+      have hc := List.find?_some hf
+      simp only [Bool.and_eq_true, beq_iff_eq] at hc
+      exact ⟨hp.move hp.pkn hp.sb (perm_hand (items_erase (List.mem_of_find?_eq_some hf) _)) rfl, hc.2⟩⟩⟩)
+
+theorem A_activeRemoveRequests (na) : Ho (Acc rid n1 n2 z H) (activeRemoveRequests na)
+    (fun calls => Acc rid n1 n2 z (calls.map Call.item ++ H)) :=
+  ⟨fun st hp => hp.move hp.pkn hp.sb (by
+    rw [activeRemoveRequests_run]
+    have := items_removeRequests st.1 (fun call => callNA call == na)
+    show (items { st.1 with active := st.1.active.filter (fun call => callNA call != na) } ++ (_ ++ H)).Perm _
+    rw [← List.append_assoc]
+    exact List.Perm.append_right H (List.perm_append_comm.trans this)) rfl⟩
+
+theorem A_replayUpd {c : Cfg} (oldNonce : Nat) (p : Pkt) : Ho (Acc rid n1 n2 z H) (modS fun s =>
+        let upd : Call → Call := fun call =>
+          if call.pkt.nonce == oldNonce then
+            { call with pkt := p, deadline := s.now + c.requestTimeout, tseq := s.tctr }
+          else call
+        { s with active := s.active.map upd, tctr := s.tctr + 1 }) (fun _ => Acc rid n1 n2 z H) :=
+  Ho.modS _ (fun st hp => hp.move hp.pkn hp.sb (by
+    have : ∀ l : List Call, (l.map (fun call => if call.pkt.nonce == oldNonce then
+        { call with pkt := p, deadline := st.1.now + c.requestTimeout, tseq := st.1.tctr } else call)).map
+        Call.item = l.map Call.item := by
+      intro l
+      rw [List.map_map]
+      refine List.map_congr_left (fun x _ => ?_)
+      simp only [Function.comp]
+      split <;> rfl
+    show (items { st.1 with active := _, tctr := _ } ++ H).Perm _
+    unfold items
+    dsimp only
+    rw [this]) rfl)
+
+/-! pending queue -/
+theorem A_push (contact : Contact) (r : Nat) (i : Bool) (body : Nat) :
+    Ho (Acc rid n1 n2 z ((r, i) :: H)) (modS fun s =>
+      let pr : PendingReq := { contact := contact, rid := r, internal := i, body := body }
+      if s.pending.any (·.1 == contact.na) then
+        { s with pending := s.pending.map (fun e => if e.1 == contact.na then (e.1, e.2 ++ [pr]) else e) }
+      else { s with pending := s.pending ++ [(contact.na, [pr])] }) (fun _ => Acc rid n1 n2 z H) :=
+  Ho.modS _ (fun st hp => by
+    have key : ∀ pend' : List (NA × List PendingReq), (pend'.map (·.1)).Nodup →
+        (pitems pend').Perm ((r, i) :: pitems st.1.pending) →
+        Acc rid n1 n2 z H ({ st.1 with pending := pend' }, st.2) := by
+      intro pend' hn hperm
+      refine hp.move hn hp.sb ?_ rfl
+      show (items { st.1 with pending := pend' } ++ H).Perm _
+      unfold items
+      dsimp only
+      rw [List.append_assoc, List.append_assoc]
+      refine List.Perm.append_left _ ?_
+      exact (List.Perm.append_right H hperm).trans List.perm_middle.symm
+    dsimp only
+    split
+    · rename_i hany
+      refine key _ ?_ ?_
+      · have : (st.1.pending.map (fun e => if e.1 == contact.na then
+            (e.1, e.2 ++ [({ contact := contact, rid := r, internal := i, body := body } : PendingReq)]) else e)).map (·.1)
+            = st.1.pending.map (·.1) := by
+          rw [List.map_map]
+          refine List.map_congr_left (fun x _ => ?_)
+          simp only [Function.comp]
+          split <;> rfl
+        rw [this]; exact hp.pkn
+      · refine pitems_push_mem _ hp.pkn ?_
+        rw [List.any_eq_true] at hany
+        obtain ⟨x, hx, hk⟩ := hany
+        exact (beq_iff_eq.1 hk) ▸ List.mem_map_of_mem hx
+    · rename_i hany
+      refine key _ ?_ (pitems_push_new _ _ _)
+      rw [List.map_append, List.nodup_append]
+      refine ⟨hp.pkn, by simp, ?_⟩
+      intro a ha b hb hab
+      simp only [List.map_cons, List.map_nil, List.mem_singleton] at hb
+      subst hb; subst hab
+      apply hany
+      rw [List.any_eq_true]
+      simp only [List.mem_map] at ha
+      obtain ⟨x, hx, hk⟩ := ha
+      exact ⟨x, hx, beq_iff_eq.2 hk⟩)
+
+/-- taking the whole queue of an address into hand -/
+theorem Acc.take {st : St} {na : NA} {ent : NA × List PendingReq} (h : Acc rid n1 n2 z H st)
+    (hf : st.1.pending.find? (·.1 == na) = some ent) :
+    Acc rid n1 n2 z (ent.2.map PendingReq.item ++ H)
+      ({ st.1 with pending := st.1.pending.filter (·.1 != na) }, st.2) :=
+  h.move (PKN_filter h.pkn _) h.sb (by
+    show (items { st.1 with pending := _ } ++ _).Perm _
+    unfold items
+    dsimp only
+    rw [List.append_assoc, List.append_assoc]
+    refine List.Perm.append_left _ ?_
+    rw [← List.append_assoc]
+    exact List.Perm.append_right H (List.perm_append_comm.trans (pitems_take h.pkn hf))) rfl
+
+theorem Acc.take_none {st : St} {na : NA} (h : Acc rid n1 n2 z H st)
+    (hf : st.1.pending.find? (·.1 == na) = none) :
+    Acc rid n1 n2 z H ({ st.1 with pending := st.1.pending.filter (·.1 != na) }, st.2) := by
+  rw [filter_ne_of_find_none hf]; exact h
+
+
 end Discv5.H
 
